@@ -743,7 +743,8 @@ def run(ctx: Ctx):
             ctx.count("opt_warm", "none" if var["warm_start"] is None else "given")
             ctx.count("opt_limits", ("iter" if var["max_iter"] is not None else "") + ("nodes" if var["max_nodes"] is not None else "") or "default")
             if bad:
-                if not reported:
+                ctx.count("oracle_rejects", 1)
+                if not reported and len(ctx.violations) < 5:
                     small = shrink(inst, var, _bad)
                     o2 = run_impl(small, var)
                     t2 = truth(small)
@@ -781,7 +782,7 @@ def run(ctx: Ctx):
             metas.append((inst, var, out))
         gate_cases.append(coq_case(inst, _norm_var({}), {"status": "OPTIMAL", "solution": None, "objective": 0.0, "nodes": 0, "solutions": None}))
         gate_metas.append(inst)
-        if grp and not reported:
+        if grp and not reported and len(ctx.violations) < 8:
             var, what = grp
             ctx.violation(f"solve_milp: {what}", {"kind": "milp-group", **inst, "options": var, "all_options": variants,
                                                    "impl": outs, "exact_verdict": [str(v) for v in tr[:2]]})
